@@ -666,6 +666,13 @@ func r14Reader(c *RuleCtx) {
 					}
 					acc.reads = append(acc.reads, read{int(-lo.k), w, dest})
 				}
+			case *ssa.Convert:
+				// an integer conversion of a length (`bodyLen := uint64(len(s.mm) - footerSize)`) keeps its value
+				if bt, ok := x.Type().Underlying().(*types.Basic); ok && bt.Info()&types.IsInteger != 0 {
+					if a := eval(x.X, env); a.ok {
+						env[x] = a
+					}
+				}
 			case *ssa.BinOp:
 				xa, ya := eval(x.X, env), eval(x.Y, env)
 				if xa.ok && ya.ok {
@@ -1275,7 +1282,7 @@ func ruleR13() *Rule {
 	return &Rule{
 		ID:    "R13",
 		Title: "CHUNK-AGREE: writer and reader derive the chunk size from the same things",
-		Props: []string{"C01", "C03", "C06", "C09"},
+		Props: []string{"C01", "C03", "C04", "C06", "C09"},
 		Floor: floorFor("R13"),
 		Run: func(c *RuleCtx) {
 			gcs := c.fn("getChunkSize")
@@ -1298,6 +1305,16 @@ func ruleR13() *Rule {
 				if res == nil || res.Referrers() == nil || len(nonDebugRefs(res)) == 0 {
 					c.ok(fmt.Sprintf("site/%s/probe", funcShortName(s.fn)), c.pos(s.call), "getChunkSize is called in "+funcShortName(s.fn)+" for its error only: no chunk size is derived here")
 					s.role = "probe"
+					// ... which asks "is this mode known?"; ErrChunkSizeZero answers another question (the adaptive
+					// modes say it for a segment without documents, which is a valid file)
+					if zero := c.p.Global("ErrChunkSizeZero"); zero != nil && !chunkArgsExcludeZero(s.call) {
+						if e := extractOf(s.call, 1); e != nil {
+							bad := failsWhenErrIs(c.p, s.call, e, zero, 0)
+							c.add(statusOf(bad == nil), fmt.Sprintf("site/%s/probe/zero-is-not-invalid", funcShortName(s.fn)), c.pos(s.call),
+								"the probe in "+funcShortName(s.fn)+" does not fail on ErrChunkSizeZero (what the adaptive chunk modes answer for a segment without documents)",
+								"the probe's error fails the caller without ErrChunkSizeZero being excepted: an empty segment written in chunk mode 1025/1026 is rejected", []string{"C04", "C09"}, witnessOfInstr(c.p, bad))
+						}
+					}
 					continue
 				}
 				s.role = chunkRole(c.p, res)
@@ -1611,4 +1628,160 @@ func onlyCompared(v ssa.Value) bool {
 		}
 	}
 	return n > 0
+}
+
+// chunkArgsExcludeZero: a getChunkSize call that cannot answer ErrChunkSizeZero — a constant mode in 1..1024.
+func chunkArgsExcludeZero(call *ssa.Call) bool {
+	m := call.Call.Args[0]
+	if u, ok := m.(*ssa.UnOp); ok && u.Op == token.MUL {
+		if g, ok := u.X.(*ssa.Global); ok && g.Name() == "LegacyChunkMode" {
+			return true
+		}
+	}
+	if k, ok := constInt64(m); ok && k >= 1 && k <= 1024 {
+		return true
+	}
+	return false
+}
+
+func witnessOfInstr(p *Program, in ssa.Instruction) []string {
+	if in == nil {
+		return nil
+	}
+	return []string{"fails at " + describeInstr(p, in)}
+}
+
+// failsWhenErrIs: e is the error result of `at`; suppose it is the sentinel (a non-nil error). Can the
+// function then fail because of it — reach, inside the region guarded by a `e != nil` test, a return whose
+// error is non-nil — without a comparison with the sentinel (==, !=, errors.Is) having taken it out? An error
+// handed back to the callers unexamined is followed into them. Returns the failing return, or nil.
+func failsWhenErrIs(p *Program, at ssa.Instruction, e ssa.Value, sentinel *ssa.Global, depth int) ssa.Instruction {
+	fn := at.Parent()
+	isSentinel := func(v ssa.Value) bool {
+		if u, ok := v.(*ssa.UnOp); ok && u.Op == token.MUL {
+			return u.X == ssa.Value(sentinel)
+		}
+		return false
+	}
+	// sentinelTest: cond compares a held value with the sentinel; isWhen = the branch outcome (true/false)
+	// that means "it is the sentinel"
+	var sentinelTest func(cond ssa.Value, st *errPathState) (isWhen bool, ok bool)
+	sentinelTest = func(cond ssa.Value, st *errPathState) (bool, bool) {
+		switch x := cond.(type) {
+		case *ssa.UnOp:
+			if x.Op == token.NOT {
+				w, ok := sentinelTest(x.X, st)
+				return !w, ok
+			}
+		case *ssa.BinOp:
+			if x.Op == token.EQL || x.Op == token.NEQ {
+				if (st.holds(x.X) && isSentinel(x.Y)) || (st.holds(x.Y) && isSentinel(x.X)) {
+					return x.Op == token.EQL, true
+				}
+			}
+		case *ssa.Call:
+			if f := x.Call.StaticCallee(); f != nil && f.String() == "errors.Is" && len(x.Call.Args) == 2 && st.holds(x.Call.Args[0]) && isSentinel(x.Call.Args[1]) {
+				return true, true
+			}
+		}
+		return false, false
+	}
+	type key struct {
+		b      *ssa.BasicBlock
+		region *ssa.BasicBlock
+	}
+	seen := map[key]bool{}
+	var found ssa.Instruction
+	var walk func(b, from, region *ssa.BasicBlock, st *errPathState, startAt int, d int)
+	walk = func(b, from, region *ssa.BasicBlock, st *errPathState, startAt int, d int) {
+		if found != nil || d > 200 {
+			return
+		}
+		st = st.clone()
+		if from != nil {
+			st.enter(from, b)
+		}
+		if region != nil && !region.Dominates(b) {
+			region = nil
+		}
+		k := key{b, region}
+		if from != nil {
+			if seen[k] {
+				return
+			}
+			seen[k] = true
+		}
+		for _, in := range b.Instrs[startAt:] {
+			st.step(in)
+			if ret, ok := in.(*ssa.Return); ok {
+				v, ns := errorOfReturn(ret)
+				held := v != nil && st.holds(v)
+				if region != nil && (ns == nonNil || held) {
+					found = ret
+					return
+				}
+				if region == nil && held && depth < 3 {
+					// handed back as it is: what do the callers do with it?
+					for _, cs := range p.callersOf(fn) {
+						call, ok := cs.(*ssa.Call)
+						if !ok || !p.InZap(cs.Parent()) {
+							continue
+						}
+						res := fn.Signature.Results()
+						var ce ssa.Value
+						if res.Len() == 1 {
+							ce = call
+						} else if x := extractOf(call, res.Len()-1); x != nil {
+							ce = x
+						}
+						if ce == nil {
+							continue
+						}
+						if r := failsWhenErrIs(p, call, ce, sentinel, depth+1); r != nil {
+							found = r
+							return
+						}
+					}
+				}
+				return
+			}
+		}
+		succs := b.Succs
+		if iff, ok := b.Instrs[len(b.Instrs)-1].(*ssa.If); ok && len(b.Succs) == 2 {
+			if x, nilWhen, ok := errNilTest(iff.Cond); ok && st.holds(x) {
+				i := 0
+				if nilWhen {
+					i = 1
+				}
+				if region == nil {
+					walk(b.Succs[i], b, b.Succs[i], st, 0, d+1)
+				} else {
+					walk(b.Succs[i], b, region, st, 0, d+1)
+				}
+				return
+			}
+			if isWhen, ok := sentinelTest(iff.Cond, st); ok {
+				i := 1
+				if isWhen {
+					i = 0
+				}
+				// known to be the sentinel and handled as such: no longer "an error" on this path
+				walk(b.Succs[i], b, nil, &errPathState{nn: map[ssa.Value]bool{}, cells: map[*ssa.Alloc]bool{}}, 0, d+1)
+				return
+			}
+		}
+		for _, sx := range succs {
+			walk(sx, b, region, st, 0, d+1)
+		}
+	}
+	st := &errPathState{nn: map[ssa.Value]bool{e: true}, cells: map[*ssa.Alloc]bool{}}
+	blk := at.Block()
+	idx := 0
+	for i, in := range blk.Instrs {
+		if in == at {
+			idx = i + 1
+		}
+	}
+	walk(blk, nil, nil, st, idx, 0)
+	return found
 }
